@@ -842,15 +842,24 @@ func compareByMED(path1, path2 *Path) *Path {
 	}
 }
 
+// isInternalPath reports whether the path counts as IBGP learned in the
+// decision process. Path from confederation member should be treated as
+// internal (IBGP learned) path (RFC 5065 5.3); every step that distinguishes
+// internal from external paths must use the same notion, otherwise the
+// pairwise comparison is not transitive and the best path depends on the
+// order of arrival.
+func isInternalPath(path *Path) bool {
+	return path.GetSource().Confederation || path.IsIBGP()
+}
+
 func compareByASNumber(path1, path2 *Path) *Path {
 	//Select the path based on source (iBGP/eBGP) peer.
 	//
 	//eBGP path is preferred over iBGP. If both paths are from same kind of
 	//peers, return None.
 
-	// Path from confederation member should be treated as internal (IBGP learned) path.
-	isIBGP1 := path1.GetSource().Confederation || path1.IsIBGP()
-	isIBGP2 := path2.GetSource().Confederation || path2.IsIBGP()
+	isIBGP1 := isInternalPath(path1)
+	isIBGP2 := isInternalPath(path2)
 	// If one path is from ibgp peer and another is from ebgp peer, take the ebgp path.
 	if isIBGP1 != isIBGP2 {
 		if isIBGP1 {
@@ -878,11 +887,11 @@ func compareByRouterID(path1, path2 *Path) (*Path, error) {
 
 	// If both paths are from eBGP peers, then according to RFC we need
 	// not tie break using router id.
-	if !SelectionOptions.ExternalCompareRouterId && !path1.IsIBGP() && !path2.IsIBGP() {
+	if !SelectionOptions.ExternalCompareRouterId && !isInternalPath(path1) && !isInternalPath(path2) {
 		return nil, nil
 	}
 
-	if !SelectionOptions.ExternalCompareRouterId && path1.IsIBGP() != path2.IsIBGP() {
+	if !SelectionOptions.ExternalCompareRouterId && isInternalPath(path1) != isInternalPath(path2) {
 		return nil, fmt.Errorf("this method does not support comparing ebgp with ibgp path")
 	}
 
@@ -924,7 +933,7 @@ func compareByNeighborAddress(path1, path2 *Path) *Path {
 }
 
 func compareByAge(path1, path2 *Path) *Path {
-	if !path1.IsIBGP() && !path2.IsIBGP() && !SelectionOptions.ExternalCompareRouterId {
+	if !isInternalPath(path1) && !isInternalPath(path2) && !SelectionOptions.ExternalCompareRouterId {
 		age1 := path1.GetTimestamp().UnixNano()
 		age2 := path2.GetTimestamp().UnixNano()
 		if age1 == age2 {
